@@ -562,3 +562,129 @@ def u_arg_type_wrapper(ip: Interp, th: ControlTheory):
                 cs = calls(s)
                 ip.require(s, f"wrapper[{raised}]:SUPPRESS-passes-unconverted-else-cls(arg)", z3.Or(z3.And(arg.t == SUPPRESS, v.t == arg.t, z3.BoolVal(not cs)),
                                                                                                   z3.And(arg.t != SUPPRESS, z3.BoolVal(len(cs) == 1))) if isinstance(v, RefV) else z3.BoolVal(False), ("C17",))
+
+
+# ======================================================================================================
+# ControlParser.add_class_commands: exactly the public methods and properties become commands - for ANY class,
+# i.e. also for subclasses that add members    (C16, symbolic part)
+# ======================================================================================================
+class MemberL(sym.Layout):
+    def sorts(self):
+        return [S, Ref]
+
+    def pack(self, v):
+        return [v.items[0].t, v.items[1].t]
+
+    def unpack(self, ts):
+        return TupleV([StrV(ts[0]), RefV(ts[1])])
+
+
+def inv_add_class_commands(state):
+    def inv(c):
+        members: SeqV = state["members"]
+        parsers: DictV = c.loc("parsers")
+        j = z3.Int("j!l")
+        k = z3.Const("k!l", S)
+        name = lambda jj: z3.Select(members.arrs[0], jj)
+        return [("parsers-has-exactly-the-exposed-members-seen-so-far", z3.ForAll([k], parsers.has(k) == z3.Exists([j], z3.And(0 <= j, j < c.i, name(j) == k, state["exposed"](j)))))]
+
+    return inv
+
+
+@unit(PAR + "add_class_commands", ("C16",), [PAR + "add_class_commands"])
+def u_add_class_commands(ip: Interp, th: ControlTheory):
+    from pyvc.theory import IterV, Iter
+
+    P = ("C16",)
+    st = th.initial()
+    st.sh = {"_stream": BufV(fresh("stream0", S)), "_terminal_width": IntV(fresh("tw", I))}
+    cls_ = RefV(fresh("a_cls", Ref))
+    members = SeqV(fresh("nmembers", I), [fresh("mname", z3.ArraySort(I, S)), fresh("mobj", z3.ArraySort(I, Ref))], MemberL())
+    st.assume(members.n >= 0)
+    name = lambda jj: z3.Select(members.arrs[0], jj)
+    obj = lambda jj: z3.Select(members.arrs[1], jj)
+    starts_us = z3.Function("str_starts_us", S, B)
+    isf = lambda jj: z3.And(obj(jj) != NONE, z3.Select(arr("is_function"), obj(jj)))
+    isp = lambda jj: z3.And(obj(jj) != NONE, z3.Select(arr("is_property"), obj(jj)))
+    exposed = lambda jj: z3.And(z3.Not(starts_us(name(jj))), z3.Or(isf(jj), isp(jj)))
+    state = {"members": members, "exposed": exposed}
+    ip.loopspecs[(PAR + "add_class_commands", 1)] = LoopSpec(inv_add_class_commands(state), P, name="each-member")
+    th.hooks["getmembers"] = lambda s, fr, pos, kws, node: [(s, IterV(Iter(members.n, members.at, [members.n >= 0], "getmembers")))] if (isinstance(pos[0], RefV)) else None
+    th.hooks["CommandParserSpecialKwargs"] = lambda s, fr, pos, kws, node: [(s, KwV(dict(kws)))]
+    th.empty_dict = lambda s, fr, hint: [(s, DictV.empty(S, RefL()))] if hint == "parsers" else [(s, KwV({}))]
+    cur = {}
+
+    def on_iter(s, fr, lname, i):
+        s.loc["$j"] = IntV(i)
+
+    th.on_loop_iteration = on_iter
+    st.loc["$j"] = IntV(-1)
+
+    def c_add(kind):
+        def c(ip_, s, fr, selfv, args):
+            """contract of add_function_command / add_property_command: creates one sub-parser that writes to the given
+            stream (their converter precondition, known finding F6, is checked by the exhaustive enumeration)"""
+            jj = s.loc["$j"].t
+            member = args["function" if kind == "function" else "prop"]
+            kw = args.get("subparser_kwargs")
+            ok = isinstance(kw, KwV) and isinstance(kw.d.get("stream"), (BufV, PlaceV)) and isinstance(kw.d.get("terminal_width"), IntV)
+            ip_.require(s, f"add_{kind}_command:called-for-the-member-itself-with-the-session-stream-and-width",
+                        z3.And(member.t == obj(jj), isf(jj) if kind == "function" else z3.And(isp(jj), z3.Not(isf(jj))), z3.BoolVal(ok),
+                               kw.d["terminal_width"].t == s.sh["_terminal_width"].t if ok else z3.BoolVal(False)), P + ("C18",))
+            sub = RefV(fresh("subparser", Ref))
+            s.assume(sub.t != NONE)
+            return [(s, sub)]
+
+        return c
+
+    ip.contracts[PAR + "add_function_command"] = c_add("function")
+    ip.contracts[PAR + "add_property_command"] = c_add("property")
+
+    def set_defaults(s, fr, recv, pos, kws, node):
+        jj = s.loc["$j"].t
+        ok = len(kws) == 0
+        return [(s, NoneV())]
+
+    th.hooks["ref.set_defaults"] = set_defaults
+
+    def ev_dict_display(s, fr, e):
+        # {member_arg_name: member}
+        out = []
+        for s2, vs in ip.ev_seq(s, fr, list(e.keys) + list(e.values)):
+            if isinstance(vs, Exit):
+                out.append((s2, vs))
+                continue
+            kv, vv = vs[0], vs[1]
+            jj = s2.loc["$j"].t
+            ip.require(s2, "set_defaults:command-default-maps-back-to-this-member", z3.And(kv.t == sym.str_lit("command"), vv.t == obj(jj)) if isinstance(kv, StrV) and isinstance(vv, RefV) else z3.BoolVal(False), P + ("C17",))
+            out.append((s2, KwV({"command": vv})))
+        return out
+
+    th.ev_dict_display = ev_dict_display
+    args = {"cls": cls_, "public_only": BoolV(True), "omit_members": TupleV([]), "member_arg_name": StrV("command")}
+    for s, v in ip.exec_function(st, ip.repo.get(PAR + "add_class_commands"), SelfV("ControlParser"), args):
+        if isinstance(v, Exit):
+            ip.require(s, f"noraise:{v.val.cls}", z3.BoolVal(False), P)
+            continue
+        j = z3.Int("j!p")
+        k = z3.Const("k!p", S)
+        ip.require(s, "post:exactly-the-public-methods-and-properties-are-exposed(any-class)",
+                   z3.ForAll([k], v.has(k) == z3.Exists([j], z3.And(0 <= j, j < members.n, name(j) == k, exposed(j)))) if isinstance(v, DictV) else z3.BoolVal(False), P)
+
+
+@unit("parser.add_function_command.name", ("C16",), [PAR + "add_function_command", PAR + "add_property_command"])
+def u_command_name(ip: Interp, th: ControlTheory):
+    """the command name is the member's name with underscores as dashes (mechanical: both functions derive the name by
+    `<member>.__name__.replace("_", "-")` and pass it as `name`/`prog`)"""
+    import ast as _ast
+
+    for q, attr in ((PAR + "add_function_command", "function"), (PAR + "add_property_command", "fget")):
+        fi = ip.repo.get(q)
+        found = False
+        for n in _ast.walk(fi.node):
+            if (isinstance(n, _ast.Call) and isinstance(n.func, _ast.Attribute) and n.func.attr == "setdefault" and len(n.args) == 2
+                    and isinstance(n.args[0], _ast.Constant) and n.args[0].value == "name"):
+                src = _ast.unparse(n.args[1])
+                found = found or (src.endswith('.__name__.replace("_", "-")') or src.endswith(".__name__.replace('_', '-')")) and attr in src
+        st = th.initial()
+        ip.require(st, f"{q.split('.')[-1]}:name-is-member-name-with-dashes", z3.BoolVal(found), ("C16",))
